@@ -22,6 +22,7 @@ type SpecCtx struct {
 	block *ssa.BasicBlock
 	idx   int
 	inOld bool
+	usedCalls *[]string // reach conditions of the calls whose results ($ret_*) were referenced
 }
 
 func (fr *Frame) specCtx(st, old *State, b *ssa.BasicBlock, idx int) *SpecCtx {
@@ -130,7 +131,11 @@ func (c *SpecCtx) eval(e Expr) (Term, error) {
 		if err != nil {
 			return Term{}, err
 		}
-		return c.index(x, i)
+		r, err := c.index(x, i)
+		if err != nil {
+			return r, fmt.Errorf("%v in %s", err, exprString(e))
+		}
+		return r, nil
 	case *ESlice:
 		return c.sliceExpr(e)
 	case *ECall:
@@ -233,12 +238,12 @@ func (c *SpecCtx) binary(e *EBin) (Term, error) {
 	}
 	switch e.Op {
 	case "==":
-		if l.Sort != r.Sort {
+		if c.vc.db.expandSort(l.Sort) != c.vc.db.expandSort(r.Sort) {
 			return Term{}, fmt.Errorf("sort mismatch in %s: %s vs %s", exprString(e), l.Sort, r.Sort)
 		}
 		return Term{fmt.Sprintf("(= %s %s)", l.S, r.S), "Bool", nil}, nil
 	case "!=":
-		if l.Sort != r.Sort {
+		if c.vc.db.expandSort(l.Sort) != c.vc.db.expandSort(r.Sort) {
 			return Term{}, fmt.Errorf("sort mismatch in %s: %s vs %s", exprString(e), l.Sort, r.Sort)
 		}
 		return Term{fmt.Sprintf("(not (= %s %s))", l.S, r.S), "Bool", nil}, nil
@@ -319,6 +324,16 @@ func (c *SpecCtx) ident(name string) (Term, error) {
 	}
 	if sig, ok := vc.db.Sigs[name]; ok && len(sig.Args) == 0 {
 		return Term{name, sig.Ret, nil}, nil
+	}
+	if strings.HasPrefix(name, "$ret_") && c.fr != nil {
+		if t, ok := c.fr.vc.topFrame.callRets[strings.TrimPrefix(name, "$ret_")]; ok {
+			if c.usedCalls != nil {
+				*c.usedCalls = append(*c.usedCalls, c.fr.vc.topFrame.callReach[strings.TrimPrefix(name, "$ret_")])
+			}
+			return t, nil
+		}
+		// a call that is not on any path: its result is irrelevant; use a fresh unconstrained value
+		return Term{}, fmt.Errorf("no call result named %s", name)
 	}
 	if name == "$alloc" {
 		return Term{vc.get(c.state(), vc.allocComp()), "Int", nil}, nil
@@ -472,8 +487,8 @@ func (c *SpecCtx) index(x, i Term) (Term, error) {
 			}
 		}
 	}
-	if strings.HasPrefix(x.Sort, "(Array ") {
-		n, _ := readSx(x.Sort)
+	if xs := c.vc.db.expandSort(x.Sort); strings.HasPrefix(xs, "(Array ") {
+		n, _ := readSx(xs)
 		i = c.coerceLit(i, n.list[1].String())
 		return Term{fmt.Sprintf("(select %s %s)", x.S, i.S), n.list[2].String(), nil}, nil
 	}
@@ -589,6 +604,40 @@ func (c *SpecCtx) call(e *ECall) (Term, error) {
 		return Term{}, fmt.Errorf("%s of %s", e.Fun, x.Sort)
 	case "ite":
 		return c.eval(&EIte{e.Args[0], e.Args[1], e.Args[2]})
+	case "upd":
+		if len(e.Args) != 3 {
+			return Term{}, fmt.Errorf("upd(a, i, v)")
+		}
+		a, err := c.eval(e.Args[0])
+		if err != nil {
+			return Term{}, err
+		}
+		n, _ := readSx(c.vc.db.expandSort(a.Sort))
+		if n == nil || len(n.list) != 3 || n.list[0].atom != "Array" {
+			return Term{}, fmt.Errorf("upd on non-array %s", a.Sort)
+		}
+		i, err := c.eval(e.Args[1])
+		if err != nil {
+			return Term{}, err
+		}
+		v, err := c.eval(e.Args[2])
+		if err != nil {
+			return Term{}, err
+		}
+		i = c.coerceLit(i, n.list[1].String())
+		v = c.coerceLit(v, n.list[2].String())
+		if v.Sort != n.list[2].String() {
+			return Term{}, fmt.Errorf("upd value sort %s, want %s", v.Sort, n.list[2].String())
+		}
+		return Term{fmt.Sprintf("(store %s %s %s)", a.S, i.S, v.S), a.Sort, nil}, nil
+	}
+	if strings.HasPrefix(e.Fun, "is_") && len(e.Args) == 1 {
+		// datatype tester: is_some(x)
+		x, err := c.eval(e.Args[0])
+		if err != nil {
+			return Term{}, err
+		}
+		return Term{fmt.Sprintf("((_ is %s) %s)", strings.TrimPrefix(e.Fun, "is_"), x.S), "Bool", nil}, nil
 	}
 	// Go integer conversions
 	if obj := types.Universe.Lookup(e.Fun); obj != nil && len(e.Args) == 1 {
@@ -614,7 +663,7 @@ func (c *SpecCtx) call(e *ECall) (Term, error) {
 				return Term{}, err
 			}
 			t = c.coerceLit(t, sig.Args[i])
-			if t.Sort != sig.Args[i] {
+			if t.Sort != sig.Args[i] && c.vc.db.expandSort(t.Sort) != c.vc.db.expandSort(sig.Args[i]) {
 				return Term{}, fmt.Errorf("%s arg %d: expected %s, got %s (%s)", e.Fun, i, sig.Args[i], t.Sort, exprString(a))
 			}
 			parts = append(parts, t.S)
